@@ -210,6 +210,39 @@ func c10Worker(args []string) {
 		}
 		rep.Scripts++
 	}
+	// variables with special-looking names holding paths, URLs and commands: set by the
+	// host before Prepare, and by the script itself followed by another Prepare (which
+	// is when the engine looks at DEBUG / OPTIMIZE) and further runs
+	special := []string{"DEBUG", "OPTIMIZE", "TRACE", "LOG", "LOGFILE", "OUTPUT", "VERBOSE", "DUMP", "PROFILE", "TZ", "HOME", "PATH", "TMPDIR", "ZONEINFO", "INCLUDE"}
+	hostileVals := []object.Object{&object.String{Value: canary}, &object.String{Value: canary + ".new"}, &object.String{Value: "file://" + canary}, &object.String{Value: "|touch " + canary + ".cmd3"},
+		&object.String{Value: "127.0.0.1:1"}, &object.Boolean{Value: true}, &object.Integer{Value: 2}, &object.Array{Elements: []object.Object{&object.String{Value: canary + ".arr"}}}}
+	for ni, name := range special {
+		for vi, val := range hostileVals {
+			marker(fmt.Sprintf("CALL/special-variable-%s/%d", name, vi))
+			if evr, err := eng.New(`x = len("abc") + 1; foreach c in "ab" { x++; } return x == 6;`, eng.Options{ObjVars: map[string]object.Object{name: val}, Budget: 100000, NoOptimize: (ni+vi)%2 == 0}); err == nil {
+				evr.Exec(map[string]interface{}{"Path": canary})
+				evr.RunBool(map[string]interface{}{"Path": canary})
+				rep.Calls++
+			}
+			lit := val.Inspect()
+			if sv, ok := val.(*object.String); ok {
+				lit = gast.EncodeString(sv.Value, '"', nil)
+			}
+			script := name + " = " + lit + "; y = lower(\"AB\"); return y == \"ab\";"
+			if evr, err := eng.New(script, eng.Options{Budget: 100000, NoOptimize: (ni+vi)%2 == 1}); err == nil {
+				evr.Exec(map[string]interface{}{"Path": canary})
+				if (ni+vi)%2 == 1 {
+					evr.E.Prepare([]byte{evalfilter.NoOptimize})
+				} else {
+					evr.E.Prepare()
+				}
+				evr.Exec(map[string]interface{}{"Path": canary})
+				evr.RunBool(map[string]interface{}{"Path": canary})
+				evr.E.Dump()
+				rep.Calls++
+			}
+		}
+	}
 	marker("END")
 	for op := code.Opcode(0); op <= code.OpRange; op++ {
 		rep.OpHist[code.String(op)] = hist[op]
